@@ -553,6 +553,46 @@ example : wireActs [.submit 1, .enqueue 1, .tick, .enter 1, .piece 1 3, .cancel 
 example : [Act.submit 1, .enter 1, .piece 1 3, .endWrite 1 false, .ret 1, .close 1].flatMap coActs =
     [.submit 1, .enqueue 1, .tick, .enter 1, .piece 1 3, .endWrite 1 false] := rfl
 
+/-! ### a fault BEFORE byte 0: `SetWriteDeadline` fails inside the critical section / at the head of `flush` (`D` scenarios) -/
+
+/-- the direct writer then returns `(0, err)` and releases the semaphore; the coalescer's `flush` hands `(0, err)` to EVERY
+    buffer of the batch and is back at its select. Observably this is a Write that ends with an error before its first byte:
+    nothing reaches the wire, nobody of the batch is left without a result, and the batch is gone. -/
+theorem C07_failure_before_first_byte (cfg : Cfg) (s s1 s2 : St) (w : Nat) (hpos : 0 < cfg.lens w)
+    (h1 : step cfg s (.enter w) = some s1) (h2 : step cfg s1 (.endWrite w false) = some s2) :
+    s2.wire = s.wire ∧ s2.pc w = .wrote 0 false ∧ s2.owner = none ∧
+      (cfg.coalesce = true → (∀ x ∈ s.todo, s2.pc x = .wrote 0 false) ∧ s2.todo = [] ∧ s2.flushing = false) := by
+  simp only [step] at h1
+  split at h1
+  · injection h1 with h1; subst h1
+    simp only [step, setPc_same] at h2
+    split at h2
+    · injection h2 with h2; subst h2
+      have hne : (0 == cfg.lens w) = false := by
+        cases hb : (0 == cfg.lens w)
+        · rfl
+        · have := (Nat.beq_eq_true_eq _ _).mp hb
+          omega
+      refine ⟨rfl, ?_, rfl, fun hc => ⟨fun x hx => ?_, ?_, ?_⟩⟩
+      · simp [setPc_same, hne]
+      · dsimp only
+        by_cases e : x = w
+        · subst e; simp [setPc_same, hne]
+        · rw [setPc_other _ _ _ _ e]
+          simp only [hc, Bool.true_and, Bool.not_false, if_true]
+          rw [setMany_mem _ _ _ _ (by simp [List.mem_filter, hx, e])]
+      · simp [hc]
+      · simp [hc]
+    · simp at h2
+  · simp at h1
+
+/-- non-vacuity: a flush of [1, 2] whose deadline cannot be armed; 3 is flushed afterwards -/
+example : ∃ s, run { lens := fun _ => 10, coalesce := true } init
+    [.submit 1, .submit 2, .enqueue 1, .enqueue 2, .tick, .enter 2, .endWrite 2 false, .ret 1, .ret 2, .submit 3, .enqueue 3,
+     .tick, .enter 3, .piece 3 10, .endWrite 3 true] = some s ∧
+    s.wire = [⟨3, 0, 10⟩] ∧ s.pc 1 = .failing 0 ∧ s.pc 2 = .failing 0 ∧ s.pc 3 = .wrote 10 true := by
+  refine ⟨_, rfl, ?_, ?_, ?_, ?_⟩ <;> decide
+
 /-! ### frame size is a parameter: nothing above depends on it; the two writers differ in ONE size-independent detail -/
 
 /-- the coalescer attributes the result of the vectored write by BYTE COUNT (`flush`): a buffer all of whose bytes
